@@ -85,10 +85,14 @@ def template(t, n):
         return [Sum(raw([y], [a, b, c, d]), fs([a, d])), Sum(raw([y], [a, b, c, d]), fs([b, c]))]
     if t == 21:  # overlapping three-element ranges next to a plain factor
         return [Sum(raw([y], [a, b, c, d]), fs([a, b, c])), Sum(raw([y], [a, b, c, d]), fs([b, c, d])), raw([z], [y])]
+    if t == 22:  # two sums of products that differ only in a LATER inner factor (a key that looks at the first factor ties)
+        return [Sum(Product((raw([a]), raw([b], [a, c]))), fs([a])), Sum(Product((raw([a]), raw([d], [a, c]))), fs([a]))]
+    if t == 23:  # the same for fractions with a product numerator, next to a plain factor
+        return [Fraction(Product((raw([a]), raw([b], [a]))), raw([c])), Fraction(Product((raw([a]), raw([d], [a]))), raw([c])), raw([c])]
     raise ValueError(t)
 
 
-N_TEMPLATES = 22
+N_TEMPLATES = 24
 PERMS4 = list(itt.permutations(range(4)))
 
 
@@ -131,7 +135,7 @@ def ordering(o, n):
 
 def idempotent(t: int, m: int, o: int) -> bool:
     """
-    pre: 0 <= t < 22 and 0 <= m < 24 and 0 <= o < 3
+    pre: 0 <= t < 24 and 0 <= m < 24 and 0 <= o < 3
     post: __return__
     """
     n = NAME_PERMS[m]
@@ -144,7 +148,7 @@ def idempotent(t: int, m: int, o: int) -> bool:
 
 def presentation_invariant(t: int, m: int, o: int, p: int, nest: int, rev: int) -> bool:
     """
-    pre: 0 <= t < 22 and 0 <= m < 24 and 0 <= o < 3 and 0 <= p < 6 and 0 <= nest < 3 and 0 <= rev < 2
+    pre: 0 <= t < 24 and 0 <= m < 24 and 0 <= o < 3 and 0 <= p < 6 and 0 <= nest < 3 and 0 <= rev < 2
     post: __return__
     """
     n = NAME_PERMS[m]
@@ -157,7 +161,7 @@ def presentation_invariant(t: int, m: int, o: int, p: int, nest: int, rev: int) 
 
 def keys_total(t: int, u: int, m: int) -> bool:
     """
-    pre: 0 <= t < 22 and 0 <= u < 22 and 0 <= m < 24
+    pre: 0 <= t < 24 and 0 <= u < 24 and 0 <= m < 24
     post: __return__
     """
     n = NAME_PERMS[m]
@@ -173,7 +177,7 @@ def keys_total(t: int, u: int, m: int) -> bool:
 
 def reach_twin(t: int, m: int) -> bool:
     """
-    pre: 0 <= t < 22 and 0 <= m < 24
+    pre: 0 <= t < 24 and 0 <= m < 24
     post: __return__
     """
     n = NAME_PERMS[m]
